@@ -7,7 +7,8 @@ from mc.engine import Viol
 PROP = "C09"
 DIR = None
 FLAT = {"a.txt": b"content of a", "b.txt": b"content of b"}
-T = {"a.txt": b"content of a", "d": DIR, "d/c.txt": b"content of c", "d/e": DIR, "d/e/f.txt": b"content of f", "emp": DIR}
+T = {"a.txt": b"content of a", "d": DIR, "d/c.txt": b"content of c", "d/e": DIR, "d/e/f.txt": b"content of f", "emp": DIR,
+     "d/\u00fcml\u00e4ut \u00df.txt": b"utf-8 name"}
 
 
 def bases(ctx, tier):
